@@ -4,7 +4,7 @@ mtimes, and record for every call: raised?, served without compiling?, fingerpri
 model, and the same for an independent fresh compile (cache disabled) of the same folder state.
 
 Instrumentation (of the environment, not of the cache logic under test):
-* api.__version__ is set to "verif-<n>";
+* api.__version__ is set to a versioneer-style string (VERSIONS), some pairs differing only after '+';
 * api._compile_model is wrapped: it counts calls (to tell "served from cache") and stamps the
   compiled model's `outputs` with the compiling version, i.e. it plays a compiler whose output
   differs between pymoca versions - the reason the version check exists;
@@ -30,6 +30,15 @@ FILES = {
     (2, 1): ("sub/ExtraB.mo", "extra"),
 }
 FOLDERS = {0: "m", 1: "l1", 2: "l2"}
+
+# version id -> a realistic versioneer string; ids {1,2,3}, {4,7}, {5,6} differ only in the local
+# label after '+' (a cache made by one must not be accepted by another)
+VERSIONS = {1: "0.9.2", 2: "0.9.2+3.g1a2b3c4", 3: "0.9.2+3.g1a2b3c4.dirty", 4: "0.9.3",
+            5: "0+untagged.22.gbd59ad3", 6: "0+untagged.23.g0000000", 7: "0.9.3+1.gabcdef0"}
+
+
+def version_string(n):
+    return VERSIONS.get(n, "0.10.%d" % n)
 
 MAIN = """model Main
   extends Base;
@@ -188,7 +197,7 @@ def replay(api, root, case):
         elif kind == "ver":
             ver = op[1]
         elif kind == "transfer":
-            api.__version__ = "verif-%d" % ver
+            api.__version__ = version_string(ver)
             c0, s0 = _state["calls"], _state["saves"]
             rec = {"exc": None, "fp": None}
             try:
